@@ -120,6 +120,12 @@ func c01Generate(c *mon.Ctx) {
 		}
 
 		rp := gen.DrawRepr(r, pv.P.IsInf())
+		ec := mon.MkElemCase(pv, rp)
+
+		if r.Intn(5) == 0 {
+			ec = mon.MkNatElemCase(pv, r.Intn(8))
+		}
+
 		k := gen.Draw(r, n)
 
 		if r.Intn(2) == 0 && k.X.Bit(255) == 0 {
@@ -129,7 +135,7 @@ func c01Generate(c *mon.Ctx) {
 			}
 		}
 
-		cs := &c01Case{E: mon.MkElemCase(pv, rp), K: fmt.Sprintf("%x", k.X), KClass: k.Class}
+		cs := &c01Case{E: ec, K: fmt.Sprintf("%x", k.X), KClass: k.Class}
 		if r.Intn(16) == 0 {
 			cs.K2 = fmt.Sprintf("%x", gen.Draw(r, n).X)
 		}
